@@ -192,7 +192,8 @@ def check_complement(ctx, res: Result):
     for r in readds:
         ifs = v.enclosing_all(r, (ast.If,))
         lp = v.enclosing(r, (ast.For,))
-        ok_loop = lp is not None and isinstance(lp.iter, ast.Call) and isinstance(lp.iter.func, ast.Attribute) and lp.iter.func.attr == "get_edges" and not lp.iter.args and not lp.iter.keywords and norm(lp.iter.func.value) == "hypergraph"
+        lit_ = (v.resolve(lp.iter) if isinstance(lp.iter, ast.Name) else lp.iter) if lp is not None else None  # `all_edges = hypergraph.get_edges(); for e in all_edges:`
+        ok_loop = lp is not None and isinstance(lit_, ast.Call) and isinstance(lit_.func, ast.Attribute) and lit_.func.attr == "get_edges" and not lit_.args and not lit_.keywords and norm(lit_.func.value) == "hypergraph"
         res.check(ok_loop, "M-COMPLEMENT", f, norm(lp.iter) if lp is not None else norm(r), "over-all-edges", "the untouched hyperedges are not taken from all hyperedges of the input", loc(v.fi, r))
         # the re-add is control-dependent on `len(e) != size`: inside `if len(e) != size:` or after `if len(e) == size: continue`
         rid = v.cfg_id(r)
